@@ -586,7 +586,10 @@ func (obj *SparseInt16Vector) Import(filename string) error {
     } else {
       indices = append(indices, int(v))
     }
-    if v, err := strconv.ParseFloat(fields[1], 64); err != nil {
+    // integer literals are converted exactly (zero keeps its sign below)
+    if v, err := strconv.ParseInt(fields[1], 10, 64); err == nil && v != 0 {
+      values = append(values, int16(v))
+    } else if v, err := strconv.ParseFloat(fields[1], 64); err != nil {
       return err
     } else {
       values = append(values, int16(v))
